@@ -737,7 +737,10 @@ def _validate(obl, model, numeric, seed):
         agree += 1
         if admissible >= MIN_ADMISSIBLE and len({f.split("+")[0] for f in fams}) >= 10 and tried >= 120:
             break
-    if admissible >= MIN_ADMISSIBLE and len({f.split("+")[0] for f in fams}) >= 8:
+    nf = len({f.split("+")[0] for f in fams})
+    # 8 input families normally; when the path condition itself excludes most families (e.g. "largest singular value below
+    # norm_eps" excludes the huge ones) the whole budget has been spent looking for them: then at least 3
+    if admissible >= MIN_ADMISSIBLE and (nf >= 8 or (tried >= MAX_SAMPLES and nf >= 3)):
         return {"status": "spurious", "admissible_samples": admissible, "families": sorted(fams), "samples_tried": tried,
                 "hypotheses_not_evaluable": len(unknown_hyps)}
     return {"status": "unknown", "reason": f"only {admissible} admissible samples in {tried} draws ({dict(list(errors.items())[:3])})"}
